@@ -59,6 +59,17 @@ impl RB {
     }
 }
 
+#[cfg(optrs_verif)]
+impl RB {
+    /// The energy terms in the order they are summed
+    pub fn verif_terms(&self) -> Vec<crate::verif::TermDesc> {
+        self.energy_functions
+            .iter()
+            .map(|f| f.verif_describe())
+            .collect()
+    }
+}
+
 impl Forcefield for RB {
     /// Create a new, bespoke, RB forcefield for a molecule
     fn new(molecule: &Molecule) -> Self {
